@@ -371,6 +371,34 @@ func (f fakeConn) LocalAddr() net.Addr { return &net.TCPAddr{IP: net.IPv4(127, 0
 // c09CallbackHistories: the SSH protocol lets a client send any number of authentication requests on one
 // connection, each naming its own user and key.  Every sequence of <=3 requests over 2 connections x 3 users x 3
 // keys goes through the real PublicKeyCallback; each answer must depend on that request's user and key alone.
+// c09BigFile: an authorized-keys file with hundreds of keys (and a very long comment line); the listed key is the
+// first, a middle and the last one; an unlisted key is refused.
+func c09BigFile(c *core.Ctx) {
+	u, err := userserver.New("alice", "127.0.0.1:5555")
+	if err != nil {
+		panic(err)
+	}
+	var lines []string
+	for i := 0; i < 400; i++ {
+		_, k, _ := ed25519.GenerateKey(rand.Reader)
+		s, _ := ssh.NewSignerFromKey(k)
+		l := string(ssh.MarshalAuthorizedKey(s.PublicKey()))
+		lines = append(lines, strings.TrimSpace(l)+fmt.Sprintf(" user%d@host", i))
+	}
+	for _, pos := range []int{0, 199, 399, -1} {
+		ls := append([]string{}, lines...)
+		if pos >= 0 {
+			ls[pos] = Keys[1].Line + " the one"
+		}
+		ls = append(ls[:100], append([]string{"# " + strings.Repeat("c", 70000)}, ls[100:]...)...)
+		_, err := sshserver.VerifVerifyAuthorizedKeys(u, []byte(strings.Join(ls, "\n")+"\n"), Keys[1].Pub)
+		c.Count(fmt.Sprintf("bigfile|%d", pos))
+		if (err == nil) != (pos >= 0) {
+			c.Violation(map[bool]string{true: "listed-key-rejected", false: "unlisted-key-accepted"}[pos >= 0], fmt.Sprintf("authorized_keys with 400 keys and a 70000-byte comment line, the offered key at position %d (-1 = not listed): accepted=%v (%v)", pos, err == nil, err), pos)
+		}
+	}
+}
+
 func c09CallbackHistories(c *core.Ctx) {
 	WriteAuthorizedKeys("alice", Keys[0].Line+"\n")
 	WriteAuthorizedKeys("mallory", "# mallory\n"+Keys[1].Line+"\n"+Keys[2].Line+"\n")
@@ -442,6 +470,7 @@ func init() {
 			c09Keys(c)
 			c09CallbackHistories(c)
 			if c.Shard == 0 {
+				c09BigFile(c)
 				c09Passwords(c)
 				c09Handshakes(c)
 			}
